@@ -56,10 +56,12 @@ class State:
         self.sym_lb = {}
         self.sym_ub = {}
         self.facts = []
+        self.dbl = {}        # double variable -> (lower Bounds polys tuple, upper polys tuple, nonneg flag)
         self.dead = False
 
     def copy(self):
         s = State()
+        s.dbl = dict(self.dbl)
         s.vars = dict(self.vars)
         s.sym_lb = {k: list(v) for k, v in self.sym_lb.items()}
         s.sym_ub = {k: list(v) for k, v in self.sym_ub.items()}
@@ -176,6 +178,7 @@ class Summary:
         self.unproven = []      # Obl
         self.proved = []
         self.retvals = None
+        self.alt = None
 
 
 _BATCH = {}
@@ -219,7 +222,10 @@ class Analyzer:
         def relevant(r):
             words = set()
             for o in r.unproven:
-                words |= set(re.findall(r"[A-Za-z_]\w*", f"{o.txt} {o.detail}"))
+                w = set(re.findall(r"[A-Za-z_]\w*", f"{o.txt} {o.detail}"))
+                if not (w & set(intparams)):
+                    return intparams         # an obligation that names no parameter: anything may help
+                words |= w
             rel = [p for p in intparams if p in words]
             return rel or intparams
 
@@ -260,6 +266,16 @@ class Analyzer:
                 assum, res = bestc
                 improved = True
         res.pre = assum
+        # fallback variant: the same function under "every integer parameter is >= 0" (what a shim that binds
+        # them to array dimensions establishes); used by the shim check when the unconditional requirement fails
+        res.alt = None
+        extra = [(p, 0) for p in intparams if not any(a[0] == p for a in assum)]
+        if extra and any(k in self.ptr_params for k in res.req_ext):
+            alt = self._run(fn, assum + extra)
+            if len(alt.proved) + len(alt.unproven) >= total and len(alt.unproven) <= len(res.unproven):
+                alt.pre = assum + extra
+                alt.alt = None
+                res.alt = alt
         self.summ[name] = res
         return res
 
@@ -297,8 +313,20 @@ class Analyzer:
             (summ.proved if o.proved else summ.unproven).append(o)
             if o.proved and o.arr in self.ptr_params and o.side == "hi" and o.req:
                 summ.req_ext.setdefault(o.arr, []).append((o.req, o.line, o.txt, o.facts or {}))
-        summ.stores = dict(self.stores)
+        summ.stores = {k: v[0] for k, v in self.stores.items()}
         return summ
+
+    def _store(self, arr, val, st):
+        """values stored through pointer parameter `arr`: joined with what was stored before, each side
+        compared under the facts of its own store site"""
+        old = self.stores.get(arr)
+        if old is None:
+            self.stores[arr] = (val, st.copy())
+            return
+        ob, ost = old
+        nb = self.join_bounds(ob, ost, val, st)
+        ns = self.join(ost.copy(), st.copy())
+        self.stores[arr] = (nb, ns if ns is not None else st.copy())
 
     def _newsym(self, name):
         self.order[name] = self.nsym
@@ -422,8 +450,17 @@ class Analyzer:
             if ck in ("LValueToRValue", "NoOp", "IntegralCast"):
                 return inner if is_int_type(e["type"]["qualType"]) else TOP
             if ck == "FloatingToIntegral":
-                self._ob("FC", e, text(e), None, "cast", False, detail="double->int of unbounded value")
-                return TOP
+                b = self.fbounds(e["inner"][0], st)
+                tgt = e["type"]["qualType"].replace("const ", "").strip()
+                ok = b is not None
+                if ok and tgt in ("int", "short", "char", "unsigned int"):
+                    # 32-bit target: the bounds must be numeric and inside the type's range
+                    ok = any(l.is_const() and l.cval() >= -2**31 for l in b.lbs) and \
+                        any(u.is_const() and u.cval() <= 2**31 - 1 for u in b.ubs)
+                self._ob("FC", e, text(e), None, "cast", ok,
+                         detail="" if ok else "double->int conversion of a value that is not bounded by a dominating "
+                         "comparison (NaN / out-of-range conversion is undefined)", st=st)
+                return b if ok else TOP
             return TOP
         if k == "IntegerLiteral":
             return Bounds.exact(int(e["value"]))
@@ -458,6 +495,13 @@ class Analyzer:
             if op == ",":
                 self.ev(e["inner"][0], st)
                 return self.ev(e["inner"][1], st)
+            if op in ("&&", "||"):
+                # short-circuit: the right operand is evaluated only when the left one is true (&&) / false (||)
+                self.ev(e["inner"][0], st)
+                s2 = self.refine(e["inner"][0], st.copy(), op == "&&")
+                if not s2.dead:
+                    self.ev(e["inner"][1], s2)
+                return Bounds((_p(0),), (_p(1),))
             a = self.ev(e["inner"][0], st)
             b = self.ev(e["inner"][1], st)
             if not is_int_type(e["type"]["qualType"]):
@@ -507,6 +551,128 @@ class Analyzer:
             if c.get("kind"):
                 self.ev(c, st)
         return TOP
+
+    def fconst(self, name):
+        """value of a local double assigned exactly once, from a literal"""
+        tab = getattr(self, "_fconst", None)
+        if tab is None:
+            tab = self._fconst = {}
+            cnt = {}
+
+            def walk(n):
+                k = n.get("kind")
+                if k == "BinaryOperator" and n.get("opcode") == "=" or k == "CompoundAssignOperator":
+                    t = strip(n["inner"][0])
+                    if t.get("kind") == "DeclRefExpr":
+                        nm = t["referencedDecl"]["name"]
+                        cnt[nm] = cnt.get(nm, 0) + 1
+                        r = strip(n["inner"][1])
+                        while r.get("kind") in ("ImplicitCastExpr", "ParenExpr"):
+                            r = r["inner"][0]
+                        if k == "BinaryOperator" and r.get("kind") in ("FloatingLiteral", "IntegerLiteral"):
+                            tab[nm] = float(r["value"])
+                        else:
+                            tab[nm] = None
+                if k == "VarDecl" and n.get("inner"):
+                    init = [c for c in n["inner"] if c.get("kind")]
+                    if init:
+                        cnt[n["name"]] = cnt.get(n["name"], 0) + 1
+                        r = init[0]
+                        while r.get("kind") in ("ImplicitCastExpr", "ParenExpr"):
+                            r = r["inner"][0]
+                        tab[n["name"]] = float(r["value"]) if r.get("kind") in ("FloatingLiteral", "IntegerLiteral") else None
+                if k == "UnaryOperator" and n.get("opcode") in ("++", "--", "&"):
+                    t = strip(n["inner"][0])
+                    if t.get("kind") == "DeclRefExpr":
+                        cnt[t["referencedDecl"]["name"]] = 99
+                for c in n.get("inner", []):
+                    if c.get("kind"):
+                        walk(c)
+            walk(self.fn["body"])
+            for nm, c in cnt.items():
+                if c != 1:
+                    tab[nm] = None
+        return tab.get(name)
+
+    def fbounds(self, e, st):
+        """integer Bounds enclosing trunc(e) for a double expression e, or None when e is not known to be
+        finite and bounded on both sides.  Vocabulary: a double variable bounded by dominating comparisons
+        with integer expressions; an integer converted to double; a product of such a value with a factor
+        of magnitude <= 1 (literal or single-assignment literal variable)."""
+        while e.get("kind") in ("ParenExpr", "ConstantExpr") or \
+                (e.get("kind") == "ImplicitCastExpr" and e.get("castKind") in ("LValueToRValue", "NoOp")):
+            e = e["inner"][0]
+        k = e.get("kind")
+        if k == "DeclRefExpr":
+            f = st.dbl.get(e["referencedDecl"]["name"])
+            if f and f[0] and f[1]:
+                return Bounds(f[0], f[1])
+            return None
+        if k in ("ImplicitCastExpr", "CStyleCastExpr") and e.get("castKind") == "IntegralToFloating":
+            q = self.quiet
+            self.quiet += 1
+            b = self.ev(e["inner"][0], st)
+            self.quiet = q
+            if b.lbs and b.ubs:
+                return b
+            # any 64-bit integer converted to double and back is in range except at the extreme; accept a
+            # value with unknown range only as a factor (handled by the caller)
+            return None
+        if k == "BinaryOperator" and e.get("opcode") == "*":
+            a, b = e["inner"]
+            for x, y in ((a, b), (b, a)):
+                c = self.fmag(y)
+                if c is not None and abs(c) <= 1:
+                    bx = self.fbounds(x, st)
+                    if bx is None:
+                        bx = self.fint(x, st)
+                    if bx is not None:
+                        if c >= 0:
+                            # 0 <= c <= 1: the product lies between 0 and x
+                            zero = (_p(0),)
+                            return Bounds(tuple(bx.lbs) + zero if False else self._minzero(bx.lbs), self._maxzero(bx.ubs))
+                        return Bounds(self._minzero([-u for u in bx.ubs]), self._maxzero([-l for l in bx.lbs]))
+        return None
+
+    def _minzero(self, lbs):
+        """lower bounds of min(0, x) given lower bounds of x: a constant lb >= 0 gives 0"""
+        out = []
+        for l in lbs:
+            if l.is_const():
+                out.append(_p(min(0, l.cval())))
+        return tuple(out) or ()
+
+    def _maxzero(self, ubs):
+        out = []
+        for u in ubs:
+            if u.is_const():
+                out.append(_p(max(0, u.cval())))
+            else:
+                out.append(u)      # u >= value; if value <= u and u may be negative the product is still <= max(0,u); keep u only with u >= 0 proof
+        return tuple(out)
+
+    def fint(self, e, st):
+        """(double)intexpr with full 64-bit range is still convertible when scaled by |c| <= 1 < 1: use type range"""
+        while e.get("kind") in ("ParenExpr",):
+            e = e["inner"][0]
+        if e.get("kind") in ("ImplicitCastExpr", "CStyleCastExpr") and e.get("castKind") == "IntegralToFloating":
+            q = self.quiet
+            self.quiet += 1
+            b = self.ev(e["inner"][0], st)
+            self.quiet = q
+            lbs = b.lbs or (_p(-2**62),)
+            ubs = b.ubs or (_p(2**62),)
+            return Bounds(lbs, ubs)
+        return None
+
+    def fmag(self, e):
+        while e.get("kind") in ("ParenExpr", "ImplicitCastExpr"):
+            e = e["inner"][0]
+        if e.get("kind") in ("FloatingLiteral", "IntegerLiteral"):
+            return float(e["value"])
+        if e.get("kind") == "DeclRefExpr":
+            return self.fconst(e["referencedDecl"]["name"])
+        return None
 
     def mul(self, a, b, st):
         if a.is_exact() and not b.is_exact():
@@ -578,6 +744,8 @@ class Analyzer:
 
     def store_to(self, lhs, val, st):
         lhs_s = strip(lhs)
+        if lhs_s.get("kind") == "DeclRefExpr" and not is_int_type(lhs_s["type"]["qualType"]):
+            st.dbl.pop(lhs_s["referencedDecl"]["name"], None)
         vn = self.varname(lhs_s)
         k = lhs_s.get("kind")
         if vn is not None:
@@ -599,10 +767,9 @@ class Analyzer:
                 elif arr in self.ptr_params and not self.quiet:
                     cl = Bounds([q for l in val.lbs for q in self.close_lo(l, st)],
                                 [q for u in val.ubs for q in self.close_up(u, st)])
-                    old = self.stores.get(arr)
-                    self.stores[arr] = cl if old is None else self.join_bounds(old, st, cl, st)
+                    self._store(arr, cl, st)
             elif arr in self.ptr_params and not self.quiet:
-                self.stores.setdefault(arr, TOP)
+                self._store(arr, TOP, st)
 
     def assign(self, e, st):
         lhs, rhs = e["inner"]
@@ -640,12 +807,31 @@ class Analyzer:
         return cur if e.get("isPostfix") else val
 
     # ---- calls ----------------------------------------------------------
+    def pick_summary(self, name, args, st):
+        """the callee's summary; its ">= 0 world" variant when that variant's preconditions hold at this call"""
+        sm = self.summ.get(name)
+        alt = getattr(sm, "alt", None)
+        if alt is None:
+            return sm
+        q_ = self.quiet
+        self.quiet += 1
+        okalt = True
+        for (pn, pt), a in zip(alt.params, args):
+            need = [c for s_, c in alt.pre if s_ == pn]
+            if need and is_int_type(pt):
+                b_ = self.ev(a, st)
+                if not any(self.prover.nonneg(lb - max(need), st) for lb in b_.lbs):
+                    okalt = False
+                    break
+        self.quiet = q_
+        return alt if okalt else sm
+
     def call(self, e, st):
         callee = strip(e["inner"][0])
         name = callee.get("referencedDecl", {}).get("name") if callee.get("kind") == "DeclRefExpr" else None
         args = e["inner"][1:]
         if name in self.summ and name in self.fns or name in self.summ:
-            sm = self.summ[name]
+            sm = self.pick_summary(name, args, st)
             sub = {}
             ptrs = {}
             for (pn, pt), a in zip(sm.params, args):
@@ -703,8 +889,7 @@ class Analyzer:
                     old = st.vars.get(key)
                     st.vars[key] = val if old is None else self.join_bounds(old, st, val, st)
                 elif arr in self.ptr_params and not self.quiet:
-                    old = self.stores.get(arr)
-                    self.stores[arr] = val if old is None else self.join_bounds(old, st, val, st)
+                    self._store(arr, val, st)
             return TOP
         # library / unknown
         if name == "qsort":
@@ -715,7 +900,7 @@ class Analyzer:
                 if n.ubs:
                     self.access(e, arr, idx, st, f"qsort({arr},{text(args[1])})")
                 if arr in self.ptr_params and not self.quiet:
-                    self.stores.setdefault(arr, TOP)
+                        self._store(arr, TOP, st)
             return TOP
         if name in ("malloc", "calloc"):
             return TOP
@@ -748,6 +933,9 @@ class Analyzer:
             if keep:
                 r.sym_lb[s] = list(dict.fromkeys(keep))
         r.facts = [f for f in s1.facts if f in s2.facts]
+        for dv in set(s1.dbl) & set(s2.dbl):
+            if s1.dbl[dv] == s2.dbl[dv]:
+                r.dbl[dv] = s1.dbl[dv]
         for s in set(s1.sym_ub) | set(s2.sym_ub):
             l1, l2 = s1.sym_ub.get(s, []), s2.sym_ub.get(s, [])
             keep = [x for x in l1 if any(self.prover.nonneg(x - y, s2) for y in l2)] + \
@@ -865,6 +1053,8 @@ class Analyzer:
                 return self.join(s1, s2)
             if op in ("<", "<=", ">", ">=", "==", "!="):
                 if not (is_int_type(strip(a)["type"]["qualType"]) and is_int_type(strip(b)["type"]["qualType"])):
+                    if truth and op in ("<", "<=", ">", ">="):
+                        self.refine_double(a, b, op, st)
                     return st
                 if not truth:
                     op = {"<": ">=", "<=": ">", ">": "<=", ">=": "<", "==": "!=", "!=": "=="}[op]
@@ -913,6 +1103,56 @@ class Analyzer:
         if k == "DeclRefExpr" or k == "ArraySubscriptExpr":
             return st
         return st
+
+    def refine_double(self, a, b, op, st):
+        """a true comparison between a double variable and an integer-valued expression bounds the variable
+        (and excludes NaN).  Only the true branch is used: a false comparison says nothing about NaN."""
+        def dvar(x):
+            x = strip(x)
+            while x.get("kind") in ("ImplicitCastExpr", "ParenExpr"):
+                x = strip(x["inner"][0])
+            if x.get("kind") == "DeclRefExpr" and x["type"]["qualType"].replace("const ", "") in ("double", "float"):
+                return x["referencedDecl"]["name"]
+            return None
+
+        def ival(x):
+            x = strip(x)
+            while x.get("kind") in ("ParenExpr",):
+                x = strip(x["inner"][0])
+            if x.get("kind") in ("ImplicitCastExpr", "CStyleCastExpr") and x.get("castKind") == "IntegralToFloating":
+                q = self.quiet
+                self.quiet += 1
+                r = self.ev(x["inner"][0], st)
+                self.quiet = q
+                return r
+            if x.get("kind") == "IntegerLiteral":
+                return Bounds.exact(int(x["value"]))
+            if x.get("kind") == "FloatingLiteral":
+                v = float(x["value"])
+                if v == int(v) and abs(v) < 2**62:
+                    return Bounds.exact(int(v))
+            return None
+        for x, y, o in ((a, b, op), (b, a, {"<": ">", "<=": ">=", ">": "<", ">=": "<="}[op])):
+            v = dvar(x)
+            r = ival(y)
+            if v is None or r is None:
+                continue
+            lo, hi, _ = st.dbl.get(v, ((), (), False))
+            if o in (">", ">="):
+                lo = tuple(r.lbs) + tuple(lo)
+            else:
+                nonneg = any(l.is_const() and l.cval() >= 0 for l in lo)
+                d = 1 if (o == "<" and nonneg) else 0
+                hi = tuple(u - d for u in r.ubs) + tuple(hi)
+                if nonneg:
+                    # 0 <= v < y (or <= y): the integer side is >= 1 (or >= 0)
+                    yy = strip(y)
+                    while yy.get("kind") in ("ImplicitCastExpr", "CStyleCastExpr", "ParenExpr"):
+                        yy = strip(yy["inner"][0])
+                    vn, cc = self.lin(yy)
+                    if vn:
+                        self.add_lb(st, vn, _p((1 if o == "<" else 0) - cc))
+            st.dbl[v] = (lo[:4], hi[:4], False)
 
     # ---- statements -----------------------------------------------------
     def exec(self, s, st):
@@ -1309,7 +1549,7 @@ class Analyzer:
             if k == "CallExpr":
                 cal = strip(n["inner"][0])
                 nm = cal.get("referencedDecl", {}).get("name") if cal.get("kind") == "DeclRefExpr" else None
-                sm = self.summ.get(nm)
+                sm = self.pick_summary(nm, n["inner"][1:], probe) if nm in self.summ else None
                 if sm is not None:
                     sub = {}
                     for (pn, pt), a in zip(sm.params, n["inner"][1:]):
